@@ -32,3 +32,6 @@
   (ite (<= k 0) 0 (+ (psum s (- k 1)) (select s (- k 1)))))
 ; zsize[r]: number of bytes reader r still yields before EOF (the inflated size of a zlib stream)
 ; ghost zsize (Array Iface Int)
+; sendAttempts: number of send statements and selects with a send case executed so far (entered by
+; the verifier); used for "one output attempt per input" in the worker goroutine
+; ghost sendAttempts Int
